@@ -12,8 +12,10 @@ import (
 	"github.com/bluenviron/gomavlib/v3/pkg/dialect"
 	"github.com/bluenviron/gomavlib/v3/pkg/dialects/ardupilotmega"
 	"github.com/bluenviron/gomavlib/v3/pkg/dialects/common"
+	testdialect "github.com/bluenviron/gomavlib/v3/pkg/dialects/test"
 	"github.com/bluenviron/gomavlib/v3/pkg/frame"
 	"github.com/bluenviron/gomavlib/v3/pkg/message"
+	"pgregory.net/rapid"
 
 	"verifharness/ref"
 )
@@ -54,6 +56,7 @@ var (
 	dialectsOnce sync.Once
 	dCommon      *dialectInfo
 	dArdu        *dialectInfo
+	dTest        *dialectInfo
 )
 
 func mkDialect(name string, d *dialect.Dialect) *dialectInfo {
@@ -77,8 +80,21 @@ func dialects(t testing.TB) (*dialectInfo, *dialectInfo) {
 	dialectsOnce.Do(func() {
 		dCommon = mkDialect("common", common.Dialect)
 		dArdu = mkDialect("ardupilotmega", ardupilotmega.Dialect)
+		dTest = mkDialect("test", testdialect.Dialect)
 	})
 	return dCommon, dArdu
+}
+
+// pool returns the dialects the wire checks draw from.
+func pool(t testing.TB) []*dialectInfo {
+	dialects(t)
+	return []*dialectInfo{dCommon, dArdu, dTest}
+}
+
+func drawDialect(t *rapid.T, tb []*dialectInfo) *dialectInfo {
+	// the one-message test dialect is picked less often
+	i := rapid.SampledFrom([]int{0, 0, 0, 1, 1, 1, 2}).Draw(t, "dialect_idx")
+	return tb[i]
 }
 
 // chunkReader hands out the stream in the given chunk sizes (then 1 byte at a time when the
